@@ -114,7 +114,7 @@ def C10_4(ctx, facts):
                 stores.append((b, s))
     ctx.floor("join_next|error-store", len(stores), 1, "stores to self.error")
     for (b, s) in stores:
-        g, w = j.guarded(b, L_call(j, ("std::option::Option::is_none", "core::option::Option::is_none"), True))
+        g, w = j.guarded(b, L_opt(j, False, lambda rr: any(r.kind == "arg" and "error" in r.desc for r in rr)))
         ctx.check(g, "join_next|first-error-kept", "self.error is written only while it is still None: the first failure observed is the one reported", "a later error can overwrite the first one", j.where(b), j.path_desc(w))
     f = facts.unit(facts.fn(PA), expand=True)
     np = f.aggregates("happy_eyeballs::HappyEyeballsError", "NoProgress")
